@@ -118,6 +118,49 @@ theorem dot_session_count_change (entry exit : RCmd) (typed : List RCmd) (reps n
 /-- Before the fix the replay was "every recorded command, `reps` times", with no opening command:
 `A!<esc>` then `.` re-inserted `!` at the cursor instead of at the end of the line. -/
 def dotExecsLegacy (cmds : List RCmd) (reps : Nat) : List RCmd := (List.replicate reps cmds).flatten
+/-! ## A change whose motion fails is abandoned, typed or repeated -/
+
+theorem change_beq : (VKind.change == VKind.change) = true := by decide
+
+/-- Where no motion fails the machine with abandonment is the machine without it: every theorem above
+carries over. -/
+theorem dotExecsA_of_no_failure (rep : Option Replay) (n : Nat) :
+    dotExecsA (fun _ => false) rep n = dotExecs rep n := by
+  unfold dotExecsA
+  cases rep with
+  | none => rfl
+  | some r =>
+    cases r with
+    | single c => rfl
+    | mode cmds reps =>
+      cases h : replayEntry cmds n <;> simp [entryFails, dotExecs, h]
+
+/-- **`.` of a change whose motion fails here hands nothing to the editor** — and neither does typing the
+change again (`sessionExecsA`): the two agree, both when the motion fails and when it does not. -/
+theorem dot_of_failing_change_does_nothing (fails : RCmd → Bool) (entry exit : RCmd) (typed : List RCmd) (reps : Nat)
+    (he : entry.kind = .change) (hx : closes exit = true) (hf : fails entry = true) :
+    dotExecsA fails (recordSession entry typed exit reps) 1 = [] ∧ sessionExecsA fails entry typed exit reps = [] := by
+  have ho : opens entry = true := by unfold opens; rw [he]; decide
+  constructor
+  · simp [dotExecsA, entryFails, recordSession, replayEntry, splitEntry_cons entry (typed ++ [exit]) ho, he, hf, change_beq]
+  · simp [sessionExecsA, he, hf, change_beq]
+
+theorem dot_of_change_agrees_with_typing (fails : RCmd → Bool) (entry exit : RCmd) (typed : List RCmd) (reps : Nat)
+    (he : entry.kind = .change) (hx : closes exit = true) :
+    dotExecsA fails (recordSession entry typed exit reps) 1 = sessionExecsA fails entry typed exit reps := by
+  have ho : opens entry = true := by unfold opens; rw [he]; decide
+  cases hf : fails entry with
+  | true =>
+    obtain ⟨a, b⟩ := dot_of_failing_change_does_nothing fails entry exit typed reps he hx hf
+    rw [a, b]
+  | false =>
+    have h1 : dotExecsA fails (recordSession entry typed exit reps) 1 = modeExecs (entry :: typed ++ [exit]) reps 1 := by
+      simp [dotExecsA, entryFails, recordSession, replayEntry, splitEntry_cons entry (typed ++ [exit]) ho, he, hf, change_beq]
+    rw [h1]
+    simp only [sessionExecsA, he, hf, Bool.and_false, Bool.false_eq_true, ↓reduceIte]
+    have := dot_repeats_session entry exit typed reps ho hx
+    simpa [dotExecs, recordSession, sessionExecs] using this
+
 theorem legacy_replay_differs :
     let a : RCmd := { kind := .insertMode, verb := some "InsertMode", motion := some "EndOfLine" }
     let t : RCmd := { verb := some "InsertChar('!')", motion := some "ForwardChar" }
